@@ -215,6 +215,64 @@ func TestC10(t *testing.T) {
 			c.ShutdownAsync()
 		}
 	}
+	// ---- idle eviction while the newest storage table is busy: the untouched keys sit in an older, sealed table of the
+	// fragment and a few dozen keys in the newest table are read all the time.  The untouched keys still have to go.
+	for r := 0; r < (rounds+1)/2; r++ {
+		P := []uint64{1, 3}[r%2]
+		c, err := cluster.Start(cluster.Options{Replicas: 1, Partitions: P, Manual: true, TableSize: 4096,
+			DMaps: func(d *config.DMaps) {
+				d.NumEvictionWorkers = 4
+				d.Custom = map[string]config.DMap{"c10idle": {MaxIdleDuration: window}}
+			}}, 1)
+		if err != nil {
+			t.Fatal(err)
+		}
+		label := fmt.Sprintf("N=1 R=1 P=%d T=4096 idle window=%v, busy newest table", P, window)
+		sum.Configs = append(sum.Configs, label)
+		seq++
+		w.Emit(trace.Ev{"t": "reset", "seq": seq, "cfg": label, "maxkeys": 0, "maxinuse": 0, "entry": entry, "window": int(window.Milliseconds())})
+		p := Embedded(c.Members[0])
+		ncold, nhot := 40*int(P), 30*int(P)
+		for i := 0; i < ncold; i++ {
+			p.Put(ctx, "c10idle", fmt.Sprintf("cold-%03d", i), fmt.Sprintf("%060d", i), PutOpts{})
+		}
+		lastHot := make([]time.Time, nhot)
+		for i := 0; i < nhot; i++ {
+			lastHot[i] = time.Now()
+			p.Put(ctx, "c10idle", fmt.Sprintf("hot-%03d", i), fmt.Sprintf("%060d", i), PutOpts{})
+		}
+		start := time.Now()
+		deadline := start.Add(8 * time.Second)
+		gone := false
+		for !gone && time.Now().Before(deadline) {
+			for i := 0; i < nhot; i++ {
+				t0 := time.Now()
+				rep := p.Get(ctx, "c10idle", fmt.Sprintf("hot-%03d", i))
+				sum.Evaluations++
+				w.Emit(trace.Ev{"t": "idle", "k": fmt.Sprintf("hot-%03d", i), "ret": rep.Ret, "since": int(time.Since(lastHot[i]).Milliseconds())})
+				if rep.Ret == "val" {
+					lastHot[i] = t0
+				} else {
+					lastHot[i] = time.Now()
+					p.Put(ctx, "c10idle", fmt.Sprintf("hot-%03d", i), fmt.Sprintf("%060d", i), PutOpts{})
+				}
+			}
+			gone = true
+			for i := 0; i < ncold; i++ {
+				if _, ok := c.Members[0].V.DMap.VerifEntry("c10idle", fmt.Sprintf("cold-%03d", i), partitions.PRIMARY); ok {
+					gone = false
+					break
+				}
+			}
+			time.Sleep(100 * time.Millisecond)
+		}
+		sum.Evaluations++
+		w.Emit(trace.Ev{"t": "gone", "gone": gone, "waited_ms": int(time.Since(start).Milliseconds())})
+		sum.Histories++
+		sum.DistinctNontrivial++
+		p.Close()
+		c.ShutdownAsync()
+	}
 	cluster.WaitBackground(15 * time.Second)
 	if err := w.Close(); err != nil {
 		t.Fatal(err)
